@@ -1,19 +1,29 @@
 #!/bin/bash
 # Build the framework once (warms the Go build cache); offline, files on disk only.
-set -e
+# A failure here is reported but does not stop anything: run_check.sh builds what it needs itself.
 VERIF=$(cd "$(dirname "$0")" && pwd)
 export VERIF_DIR=$VERIF
-"$VERIF/run_check.sh" list >/dev/null 2>&1 || true
 export GOFLAGS=-mod=mod GOPROXY=off GOSUMDB=off GOTOOLCHAIN=local GOCACHE=$VERIF/.gocache TZ=UTC
-cd "$VERIF/mc"
-sed "s#@REPO@#${VERIF_REPO:-/repo}#" go.mod.tmpl > go.mod
-cat "${VERIF_REPO:-/repo}/go.sum" > go.sum
-go build -o "$VERIF/bin/gen" ./cmd/gen
-"$VERIF/bin/gen" "${VERIF_REPO:-/repo}" "$VERIF/bin/overlay.setup" instrument >/dev/null
-go build -overlay "$VERIF/bin/overlay.setup/overlay.json" -o "$VERIF/bin/check" ./cmd/check
-"$VERIF/bin/gen" "${VERIF_REPO:-/repo}" "$VERIF/bin/overlay.setup" >/dev/null
-go build -overlay "$VERIF/bin/overlay.setup/overlay.json" -o "$VERIF/bin/check" ./cmd/check
-# warm the -race build cache (C19's auxiliary race-detector pass)
-go build -race -overlay "$VERIF/bin/overlay.setup/overlay.json" -o "$VERIF/bin/check.race" ./cmd/check
-rm -rf "$VERIF/bin/overlay.setup" "$VERIF/bin/check.race"
-echo "setup ok: $("$VERIF/bin/check" list | tr '\n' ' ')"
+mkdir -p "$VERIF/bin"
+(
+  flock 9
+  cd "$VERIF/mc" || exit 1
+  sed "s#@REPO@#${VERIF_REPO:-/repo}#" go.mod.tmpl > go.mod
+  cat "${VERIF_REPO:-/repo}/go.sum" > go.sum
+  go build -o "$VERIF/bin/gen" ./cmd/gen || exit 1
+  # -checklinkname=0: checks/randseam.go reaches the process-wide generator of math/rand
+  "$VERIF/bin/gen" "${VERIF_REPO:-/repo}" "$VERIF/bin/overlay.setup" instrument >/dev/null || exit 1
+  go build -ldflags=-checklinkname=0 -overlay "$VERIF/bin/overlay.setup/overlay.json" -o "$VERIF/bin/check" ./cmd/check || exit 1
+  "$VERIF/bin/gen" "${VERIF_REPO:-/repo}" "$VERIF/bin/overlay.setup" >/dev/null || exit 1
+  go build -ldflags=-checklinkname=0 -overlay "$VERIF/bin/overlay.setup/overlay.json" -o "$VERIF/bin/check" ./cmd/check || exit 1
+  # warm the -race build cache (C19's auxiliary race-detector pass)
+  go build -race -ldflags=-checklinkname=0 -overlay "$VERIF/bin/overlay.setup/overlay.json" -o "$VERIF/bin/check.race" ./cmd/check || exit 1
+  rm -rf "$VERIF/bin/overlay.setup" "$VERIF/bin/check.race"
+) 9>"$VERIF/bin/.lock"
+rc=$?
+if [ $rc -eq 0 ]; then
+  echo "setup ok: $("$VERIF/bin/check" list | tr '\n' ' ')"
+else
+  echo "setup: warm-up build failed (run_check.sh will build on its own and report BUILD-FAILED if it cannot)" >&2
+fi
+exit 0
